@@ -110,9 +110,11 @@ def run(repo, rep):
         and src(base[-1].args[0]) == wfn.name
     rep.check(okb, 'C13.d', 'base-dispatch:wraps', m.relpath, 'base printer runs under the wrapper',
               'the base dispatch is %s' % (src(base[-1]) if base else 'missing'))
-    sd = m.assigns.get('pretty_dispatch')
+    _R = __import__('engine.roles', fromlist=['x'])
+    sd = m.assigns.get(_R.name(repo, 'dispatch'))
     n += 1
-    rep.check(bool(sd) and src(sd[-1]) == 'singledispatch(_BASE_DISPATCH)', 'C13.d', 'dispatch:built-on-wrapped-base', m.relpath,
+    rep.check(bool(sd) and isinstance(sd[-1], ast.Call) and call_name(sd[-1]).endswith('singledispatch') and len(sd[-1].args) == 1
+              and src(sd[-1].args[0]) == _R.name(repo, 'base_dispatch'), 'C13.d', 'dispatch:built-on-wrapped-base', m.relpath,
               'dispatcher built on the wrapped base', 'pretty_dispatch is %s' % (src(sd[-1]) if sd else 'missing'))
     # direct printer-to-printer calls
     regs = facts.registry(repo)
